@@ -27,3 +27,4 @@ Definition run_index (l : list av) (v : av) : list Z := index_of l v.
 (* f: 0 min | 1 max | 2 sum | 3 avg *)
 Definition run_agg (f : Z) (l : list av) : list Z :=
   enc_res (match f with 0 => extreme false l | 1 => extreme true l | 2 => sum_ l | _ => avg_ l end).
+Definition run_deq (l1 l2 : list av) : list Z := [if deep_equal l1 l2 then 1 else 0].
